@@ -166,8 +166,10 @@ def prune_builds(name, keep):
     except OSError:
         return
     ds.sort(key=lambda d: os.path.getmtime(d), reverse=True)
+    now = time.time()
     for d in ds[2:]:
-        if d != keep:
+        # never remove a directory another concurrent run may still be building in or using
+        if d != keep and now - os.path.getmtime(d) > 3600:
             shutil.rmtree(d, ignore_errors=True)
 
 
